@@ -530,3 +530,106 @@ def filter_checks(h):
                 elif not has:
                     fails.append(("C04", "peer %d originated a %s update for an id it does not hold as a uuid asset" % (origin, cls), {"msg": {"k": k, "id": msg["id"]}}))
     return lines, fails
+
+
+# ------------------------------------------------------------------ C01: synchronized entities
+
+def oracle_entities(h):
+    fails = []
+    npeers = h.nclients + 1
+    for i, e in enumerate(h.events):
+        if e["ev"] == "frame" and e.get("state") is not None:
+            uu = [x["uuid"] for x in e["state"]["ents"]]
+            if len(uu) != len(set(uu)):
+                fails.append(("C01", "peer %d holds two live entities with the same uuid" % e["peer"], {"frame": e["n"]}))
+        if e["ev"] == "drain" and e["quiescent"]:
+            sets = {}
+            for p in range(npeers + sum(1 for x in h.events[:i] if x["ev"] == "late_join")):
+                st = last_state(h, i, p)
+                if st is None:
+                    continue
+                if p != 0 and st.get("client_state") != "Connected":
+                    continue
+                sets[p] = set(x["uuid"] for x in st["ents"])
+                tr = st["tracker"]
+                u2e = {a: b for a, b in tr["u2e"]}
+                live = {x["uuid"]: x["local"] for x in st["ents"]}
+                for u, loc in live.items():
+                    if u2e.get(u) != loc:
+                        fails.append(("C01", "peer %d: uuid_to_entity does not map a live synchronized entity to itself" % p, {"uuid": u}))
+                        break
+            vals = list(sets.values())
+            if vals and any(v != vals[0] for v in vals):
+                allu = set().union(*vals)
+                diff = [(u[:8], [p for p, s in sets.items() if u in s]) for u in allu if any(u not in s for s in vals)]
+                fails.append(("C01", "after the drain the peers hold different sets of synchronized entities", {"differences": diff[:6]}))
+    return fails
+
+
+def ent_instances(h):
+    """one slice instance per uuid that is created in the history (marks before or after the connection)"""
+    binds = {b["h"]: b["uuid"] for b in h.events if b["ev"] == "bind"}
+    spawns = [e for e in h.events if e["ev"] == "op" and e["op"] == "spawn" and e["mark"]]
+    if any(e["ev"] == "late_join" for e in h.events):
+        return
+    n = h.nclients
+    for sp in spawns:
+        uuid = binds.get(sp["h"])
+        if uuid is None:
+            continue
+        inst = "%s/%s" % (h.id, uuid[:8])
+        lines = ["sbegin ent %s %d" % (inst, n)]
+        sched = {}
+        left = set()
+        started = False
+        connected = set([0])
+        for ev in h.events:
+            if ev["ev"] == "sched":
+                sched[ev["peer"]] = ev["order"]
+            if ev is sp:
+                started = True
+                lines.append("a markH" if sp["peer"] == 0 else "a markC %d" % sp["peer"])
+                continue
+            if not started:
+                continue
+            if ev["ev"] == "op" and ev["op"] == "despawn" and ev["h"] == sp["h"] and ev.get("done"):
+                lines.append("a despawnH" if ev["peer"] == 0 else "a despawnC %d" % ev["peer"])
+            elif ev["ev"] == "op" and ev["op"] == "disconnect":
+                left.add(ev["peer"])
+            elif ev["ev"] == "frame" and ev.get("state") is not None:
+                p = ev["peer"]
+                st = ev["state"]
+                if p in left:
+                    continue
+                running = (st.get("server_state") == "Connected") if p == 0 else (st.get("client_state") == "Connected")
+                # the host stops listing a client once renet has dropped it
+                recv = [m for m in ev["recv"] if m["msg"]["k"] in ("spawn", "delete") and m["msg"]["id"] == uuid]
+                order = sched.get(p, [])
+                role = "server." if p == 0 else "client."
+                if running or recv:
+                    for sysname in order:
+                        if sysname == role + "entity_removed_from_" + ("server" if p == 0 else "client"):
+                            lines.append("a removedH" if p == 0 else "a removedC %d" % p)
+                        elif sysname == role + "entity_created_on_" + ("server" if p == 0 else "client"):
+                            lines.append("a createdH" if p == 0 else "a createdC %d" % p)
+                    if recv:
+                        if p == 0:
+                            i = 0
+                            while i < len(recv):
+                                j = i
+                                while j < len(recv) and recv[j].get("from") == recv[i].get("from"):
+                                    j += 1
+                                lines.append("a pollH %s %d" % (recv[i].get("from"), j - i))
+                                i = j
+                        else:
+                            lines.append("a pollC %d %d" % (p, len(recv)))
+                if p == 0:
+                    # clients the host no longer lists have left as far as the model is concerned
+                    pass
+                cnt = sum(1 for x in st["ents"] if x["uuid"] == uuid)
+                tr = st["tracker"]
+                tracked = any(x[1] == uuid for x in tr["e2u"]) if p == 0 else any(x[0] == uuid for x in tr["u2e"])
+                marked_unknown = 0
+                lines.append(("x H %d %d" % (cnt, 1 if tracked else 0)) if p == 0 else ("x C %d %d %d" % (p, cnt, 1 if tracked else 0)))
+        lines.append("send")
+        yield inst, lines, {}
